@@ -148,4 +148,21 @@ LEVEL = {
              "2..16 threads on one shared engine with staggered starts, comparing every waveform bitwise with the sequential run.",
         note="Trusted: Lean kernel; axioms ⊆ {propext, Classical.choice, Quot.sound}; OS scheduler and allocator are sampled; the model's purity is by construction and tied through C01's correspondence.",
     ),
+    "C04": dict(
+        text="Theorems: HTS wildcard matching equals the declarative Matches relation; a question holds iff one pattern matches; a single-leaf tree selects its "
+             "PDF; on every well-formed tree the loader's index form walked by search_node returns exactly what walking the file's own tree by node id returns "
+             "(yes -> second child, no -> first); from_linear's layout; engine defaults equal the header values. The byte-level reader is tied to the loader by "
+             "parsing the same files: the driver reads the .htsvoice itself, walks the file's trees with glob on the label text and compares tree index, PDF "
+             "index and every float32 entry bit for bit with Model::get_index/get_parameter, plus metadata, options, windows and defaults, on the bundled voice "
+             "and on generated voices written by the harness's own .htsvoice writer.",
+        note="Trusted: Lean kernel; axioms ⊆ {propext, Classical.choice, Quot.sound}; the Lean reader's grammar is validated by differential parsing, not proved against nom/serde.",
+    ),
+    "C18": dict(
+        text="Theorem parse_no_panic: for every byte sequence the guarded reader model — which mirrors each slice, reference lookup, size product and digit "
+             "accumulation of the loader as an explicit site — returns a voice or an error; the same sites are panics in the unguarded (pinned) model, each with a "
+             "machine-checked witness. The defects (F6, F9) were established by the fault enumeration on the real loader and repaired (fix: e8c81ac, cb42dc8). "
+             "Partial: that the real binary never hangs or allocates without bound is observed (fault enumeration under address-space and wall-clock limits), and "
+             "the tie between reader model and loader is differential (panic class gates; ok/err drift is reported).",
+        note="Trusted: Lean kernel; axioms ⊆ {propext, Classical.choice, Quot.sound}; nom/serde internals are outside the model; OS allocator behaviour is observed.",
+    ),
 }
